@@ -57,7 +57,11 @@ CFG = dict(
                   "a system call fails (without effect; the data copy possibly after a prefix was stored); tied to the kernel on "
                   "the explored scenarios: the observed outcome class must equal the model's for every case",
                   "the file systems used by the harness: the one holding /verif/.build, the tmpfs /dev/shm, devtmpfs (/dev/full)"],
-    assumptions=["two copy strategies are modelled and proved: writing through the destination path (create + truncate, as in the "
+    assumptions=["two alias policies are modelled and proved for CopyFile onto the source itself: refuse (error, as at HEAD) and no-op "
+                 "(nil, nothing touched; MoveFile then tests for the alias itself after a failed rename and returns the rename error - "
+                 "without that test the model loses the file: move_noop_without_test_refuted); the run must agree with one "
+                 "(strategy x alias policy) variant on every case (driver stats strategy, alias_policy)",
+                 "two copy strategies are modelled and proved: writing through the destination path (create + truncate, as in the "
                  "code at HEAD) and temporary file + rename over the destination name (atomic replace); a run must agree with one "
                  "of them on every case (the first case on which they differ decides; driver stat 'strategy'); an outcome that "
                  "satisfies the property but matches neither model is reported without a failing input",
@@ -76,7 +80,7 @@ CFG = dict(
 )
 CFG["manifest"] = dict(
     text=("Proof (partial): Coq theorems C18_copy_faults, C18_move_faults, C18_move_remove_fails (and their fault-free corollaries "
-          "C18_copy, C18_move), and C18_copy_replace_faults / C18_move_replace_faults for the temp-file-and-rename strategy, hold for every file-system state, every aliasing relation between the two paths (same entry, symlink "
+          "C18_copy, C18_move), C18_copy_replace_faults / C18_move_replace_faults for the temp-file-and-rename strategy, and the four *_noop_faults theorems for the no-op alias policy, hold for every file-system state, every aliasing relation between the two paths (same entry, symlink "
           "chains, hard links, none), every device layout, every content and every fault oracle over the call sites (failure without "
           "effect, partial write then error), under the system-call model of Model/FileOps.v: nil => destination reads the original "
           "bytes (CopyFile: source unchanged; MoveFile: source entry gone or was an alias); error at any step => source present and "
